@@ -325,7 +325,8 @@ fn gen_assets(r: &mut Rng, pool: &[(Vec<u8>, Vec<u8>)], amount_style: u64, p_eac
     let mut es = vec![];
     for (p, n) in pool {
         if r.chance(p_each, 100) {
-            let q = match amount_style { 0 => r.range(1, 100), 1 => *r.pick(&[5u64, 10, 10, 20]), 2 => r.range(0, 3), _ => r.u64_edge() };
+            let q = match amount_style { 0 => r.range(1, 100), 1 => *r.pick(&[5u64, 10, 10, 20]), 2 => r.range(0, 3),
+                                         10 => r.range(1, 25), 11 => *r.pick(&[5u64, 10]), 12 => r.range(0, 1), _ => r.u64_edge() };
             es.push((p.clone(), n.clone(), q));
         }
     }
@@ -367,8 +368,11 @@ fn gen_scenario(r: &mut Rng, max_utxos: u64) -> Case {
     let mut outs: Vec<U> = vec![];
     for _ in 0..n_out {
         if !outs.is_empty() && r.chance(1, 3) { let o = r.pick(&outs).clone(); outs.push(o); continue; }
-        let ma = if multi { gen_assets(r, &pool, astyle, 45) } else if r.chance(1, 40) { Some(vec![]) } else { None };
-        let coin = if edge { r.u64_edge() } else if style == 2 { r.range(0, 600_000) } else { r.range(1_000_000, 30_000_000) };
+        let ma = if multi { gen_assets(r, &pool, if astyle < 3 { astyle + 10 } else { astyle }, 40) } else if r.chance(1, 40) { Some(vec![]) } else { None };
+        let total_offered: u128 = offered.iter().map(|u| u.val.coin as u128).sum();
+        let budget = ((total_offered / (n_out as u128 + 1)).min(1u128 << 60)) as u64;
+        let coin = if edge { r.u64_edge() } else if r.chance(1, 10) { r.range(1_000_000, 30_000_000) }
+                   else { r.range(budget / 5, budget.max(budget / 5)) };
         outs.push(U { id: 0, addr: (10 + r.below(2)).to_string(), val: V { coin, ma } });
     }
     // the library refuses outputs below the minimum ada: raise them
@@ -413,6 +417,13 @@ fn gen_scenario(r: &mut Rng, max_utxos: u64) -> Case {
         else { let k = r.below(offered.len() as u64) as usize; let src = offered[k].clone(); offered[j] = src; }
     }
     let mut c = Case { label: format!("f{}", family / 10), strat, fee_a, fee_b, cpb, offered, pre, implicit, mint, outs, deposit, burn, donation, choices: vec![] };
+    // improvement followed by a fee top-up: ADA-only random-improve with a deposit of the order of the outputs
+    if family % 15 == 3 && !multi {
+        c.label = "sw".to_string();
+        c.strat = 1;
+        for o in c.outs.iter_mut() { o.val.ma = None; }
+        c.deposit = c.outs.iter().map(|o| o.val.coin / 2).sum::<u64>() / 2 + r.range(0, 2_000_000);
+    }
     // pre-step boundary: no input yet, the implicit input covers outputs + fee exactly (plus a small delta), and the
     // UTxO the pre-step takes (the last offered one) is worth about as much as its own fee
     if family % 15 == 7 && !c.offered.is_empty() {
@@ -473,7 +484,7 @@ fn main() {
         let mut r = Rng::new(seed ^ 0xC08C08);
         let mut out = Out::new(&args[2]);
         // (a) random scenarios x random scripts
-        let n_scen = if thorough { 6000 } else { 1100 };
+        let n_scen = if thorough { 6000 } else { 1600 };
         for _ in 0..n_scen {
             let sc = gen_scenario(&mut r, 12);
             let mut cache = HashMap::new();
